@@ -58,6 +58,37 @@ pub(crate) fn c03_slice_passthru<S: Shape>() {
     c03_slice_body::<S>(cfg)
 }
 
+// ------------------------------------------------------------ C03 / C01, fast line path
+// Same model, but the matcher declares the line terminator, so Core takes
+// match_by_line_fast / find_by_line_fast / match_by_line_fast_invert (and
+// switches to the slow loop after the first match under stop-on-nonmatch).
+fn c03_fast_body<S: Shape>(cfg: Cfg) {
+    let hit = any_hits::<S>();
+    let matcher = LtMatcher::new::<S>(hit);
+    let searcher = build_searcher::<S>(&cfg, false);
+    let mut sink = RecSink::new(S::HAY);
+    let r = SliceByLine::new(&searcher, &matcher, S::HAY, &mut sink).run();
+    assert!(r.is_ok(), "search returns Ok");
+    let (want, count_known) = model_events::<S>(&hit, &cfg);
+    assert_log_is_model(&sink, &want, count_known, evcap::<S>());
+    kani::cover!(sink.n >= S::NL + 2, "reach-end");
+    std::mem::forget(searcher);
+}
+
+pub(crate) fn c03_fast_ctx<S: Shape>() {
+    let mut cfg = any_cfg(2);
+    cfg.passthru = false;
+    cfg.stop_nm = false;
+    c03_fast_body::<S>(cfg)
+}
+
+pub(crate) fn c03_fast_stop<S: Shape>() {
+    let mut cfg = any_cfg(1);
+    cfg.passthru = false;
+    cfg.stop_nm = true;
+    c03_fast_body::<S>(cfg)
+}
+
 // ------------------------------------------------------------ C02
 // Incremental reader strategy (ReadByLine over LineBufferReader) with symbolic
 // read fragmentation (1..=3 bytes per read()) and symbolic initial buffer
